@@ -10,7 +10,7 @@ use std::sync::Arc;
 use std::time::Duration;
 
 const PRE: [u8; 2] = [100, 101];
-const CALL_TIMEOUT: Duration = Duration::from_secs(8);
+const CALL_TIMEOUT: Duration = Duration::from_secs(4);
 
 fn bytes_json(b: &[u8]) -> Value {
     Value::Array(b.iter().map(|x| json!(*x)).collect())
@@ -168,7 +168,7 @@ pub fn run_case(c: &Value) -> Value {
             break;
         }
     }
-    json!({"result": result, "events": events})
+    json!({"result": result, "events": events, "fail": result != "ok"})
 }
 
 // ------------------------------------------------------------------------------------------
@@ -282,5 +282,5 @@ pub fn run_threaded_case(c: &Value) -> Value {
         Ok((true, true)) => "ok".to_string(),
         Ok((p, c)) => format!("panic producer_ok={} consumer_ok={}", p, c),
     };
-    json!({"result": result, "events": events, "final": bytes_json(&sink.contents())})
+    json!({"result": result, "events": events, "final": bytes_json(&sink.contents()), "fail": result != "ok"})
 }
